@@ -3,10 +3,12 @@
   and its link to the model's civil calendar.
 -/
 import XlVerif.Lemmas.C18Cal
-import XlVerif.Spec.C18
+import XlVerif.Lemmas.C18SpecCal
+import Mathlib.Tactic.SplitIfs
 namespace XlVerif.Lemmas.C18Spec
 open XlVerif XlVerif.Model.C18 XlVerif.Lemmas.C18Cal
 open XlVerif.Spec.C18 (Date ordinal daysBeforeYear cumDays serialOf serialOfOrdinal nextDay)
+open XlVerif.Lemmas.C18SpecCal
 
 /-- the model's date record read as a date of the specification -/
 def toSpec (c : YMD) : Date := ⟨c.y, c.m, c.d⟩
@@ -17,15 +19,6 @@ theorem dim_eq (y m : Int) : Spec.C18.daysInMonth y m = Model.C18.daysInMonth y 
 
 theorem valid_iff (c : YMD) : (toSpec c).Valid ↔ Valid c := Iff.rfl
 
-/-- the year lengths -/
-theorem dby_step (y : Int) :
-    daysBeforeYear (y + 1) - daysBeforeYear y = if Spec.C18.Leap y then 366 else 365 := by
-  unfold daysBeforeYear Spec.C18.Leap
-  split <;> omega
-
-theorem dby_mono (u v : Int) (h : u ≤ v) : daysBeforeYear u + 365 * (v - u) ≤ daysBeforeYear v := by
-  unfold daysBeforeYear; omega
-
 /-- the closed form of the specification is the model's day count, shifted -/
 theorem ordinal_eq (y m d : Int) (h1 : 1 ≤ m) (h12 : m ≤ 12) :
     ordinal ⟨y, m, d⟩ = daysFromCivil ⟨y, m, d⟩ - 305 := by
@@ -35,5 +28,72 @@ theorem ordinal_eq (y m d : Int) (h1 : 1 ≤ m) (h12 : m ≤ 12) :
       ∨ m = 10 ∨ m = 11 ∨ m = 12 := by omega
   rcases hcases with h | h | h | h | h | h | h | h | h | h | h | h <;> subst h <;> simp <;>
     (try split) <;> omega
+
+
+
+/-- the civil date of a day count is a date of the reference calendar with that day number -/
+theorem spec_of_civil (z : Int) :
+    (toSpec (civilFromDays z)).Valid ∧ ordinal (toSpec (civilFromDays z)) = z - 305 := by
+  have hv := civil_valid z
+  refine ⟨hv, ?_⟩
+  have := ordinal_eq (civilFromDays z).y (civilFromDays z).m (civilFromDays z).d hv.1 hv.2.1
+  unfold toSpec
+  rw [this, days_civil]
+
+/-- and every date of the reference calendar is the civil date of its day number -/
+theorem civil_of_spec (c : Date) (hv : c.Valid) : civilFromDays (ordinal c + 305) = ⟨c.y, c.m, c.d⟩ := by
+  obtain ⟨y, m, d⟩ := c
+  have := ordinal_eq y m d hv.1 hv.2.1
+  rw [this]
+  have e : daysFromCivil ⟨y, m, d⟩ - 305 + 305 = daysFromCivil ⟨y, m, d⟩ := by omega
+  rw [e]
+  exact civil_days ⟨y, m, d⟩ hv
+
+-- ---------------------------------------------------------------- evaluating the model on whole days
+
+theorem toRat_int (n : Int) : (Num.int n).toRat = (n : Rat) := rfl
+
+theorem numberToDatetime_int (n : Int) :
+    numberToDatetime (.int n) = mkDT (n - (if n ≥ 60 then 2 else 1)) 0 := by
+  unfold numberToDatetime
+  simp only [toRat_int, pyInt, Rat.floor_intCast, Rat.sub_self, Rat.zero_mul]
+  have : ((n : Rat) ≥ 60) ↔ n ≥ 60 := by
+    have : (60 : Rat) = ((60 : Int) : Rat) := rfl
+    rw [ge_iff_le, ge_iff_le, this, Rat.intCast_le_intCast]
+  simp only [this]
+
+theorem datetimeToNumber_whole (d : Int) :
+    datetimeToNumber ⟨d, 0⟩ = ((d + (if d > 58 then 2 else 1) : Int) : Rat) := by
+  unfold datetimeToNumber
+  have h0 : (0 : Rat).floor = 0 := Rat.floor_intCast 0
+  simp only [h0]
+  have : ((0 : Int) : Rat) / 24 * 60 * 60 = 0 := by
+    rw [Rat.div_def]; simp
+  rw [this, Rat.add_zero]
+
+theorem pyInt_flt_int (k : Int) : pyInt (.flt (k : Rat)) = k := by
+  unfold pyInt
+  simp only []
+  by_cases h : (k : Rat) < 0
+  · rw [if_pos h]
+    have : -(k : Rat) = ((-k : Int) : Rat) := by simp
+    rw [this, Rat.floor_intCast]; omega
+  · rw [if_neg h, Rat.floor_intCast]
+
+theorem dtInt_whole (d : Int) : dtInt ⟨d, 0⟩ = d + (if d > 58 then 2 else 1) := by
+  unfold dtInt; rw [datetimeToNumber_whole, pyInt_flt_int]
+
+theorem numberToDatetime_flt_int (k : Int) : numberToDatetime (.flt (k : Rat)) = numberToDatetime (.int k) := by
+  unfold numberToDatetime
+  rw [pyInt_flt_int]
+  rfl
+
+
+/-- relativedelta's sign–magnitude month carry is the floor-division carry of the specification -/
+theorem carryYM_eq (y m years months : Int) (h1 : 1 ≤ m) (h12 : m ≤ 12) :
+    carryYM y m years months = Spec.C18.monthShift (y + years) m months := by
+  unfold carryYM fixMonths Spec.C18.monthShift
+  simp only []
+  split_ifs <;> (apply Prod.ext <;> simp only [] <;> omega)
 
 end XlVerif.Lemmas.C18Spec
